@@ -9,7 +9,11 @@ from ..refs import canonjson, models, schema
 UNIVERSE = 6
 
 FILTERS = ["authorization", "crypto", "shape", "spelling", "distinct", "threshold", "misfiled",
-           "transplant", "bad_threshold", "authorized_respelled"]
+           "transplant", "bad_threshold", "authorized_respelled", "far_threshold"]
+
+# thresholds far above any possible number of signers, in spellings whose text / low bits / float image compare "small"
+FAR_THRESHOLDS = [10, 11, 12, 19, 20, 29, 99, 100, 101, 199, 1000, 1999, 10**6, 2**31, 2**31 + 1, 2**32, 2**32 + 1, 2**63, 2**64, 2**64 + 1, 10**18,
+                  10**30, 256, 257, 65536, 65537]
 
 BAD_THRESHOLDS = [{"$py": "float", "v": "nan"}, {"$py": "float", "v": "inf"}, {"$py": "float", "v": "-inf"}, 1.5, 0.5, 0, -1, "1", None, [1],
                   {"$py": "decimal_nan"}, {"$py": "decimal_2_5"}, {"$py": "fraction_half"}, {"$py": "complex"}, 0.0, -0.0, 1e-300]
@@ -27,8 +31,10 @@ def gen_case(rng, gpg=None, stratum=None):
         r = rng.random()
         if r < 0.25:
             stratum = "mixed"
-        elif r < 0.5:
+        elif r < 0.47:
             stratum = "accept"
+        elif r < 0.5:
+            stratum = "many_signers"
         else:
             stratum = "sole:" + rng.choice(FILTERS)
     signed = _payload(rng)
@@ -57,6 +63,18 @@ def gen_case(rng, gpg=None, stratum=None):
         for k in outsiders:
             if rng.random() < 0.4:
                 add(k.hex, rng.choice(vs), k)
+    elif stratum == "many_signers":
+        # ten or more distinct good signers against a small threshold (and against thresholds just below / at / above their number)
+        auth = [gkeys.key(100 + i) for i in range(rng.randint(10, 14))]
+        rng.shuffle(auth)
+        outsiders = uni
+        nvalid = rng.randint(10, len(auth))
+        t = rng.choice([1, 2, 3, 5, 9, nvalid - 1, nvalid, nvalid + 1, nvalid + 1, 11, 20])
+        for k in auth[:nvalid]:
+            add(k.hex, rng.choice(vs), k)
+        for k in auth[nvalid:]:
+            if rng.random() < 0.5:
+                add(k.hex, rng.choice(ivs), k)
     elif stratum == "accept":
         nvalid = rng.randint(1, n_auth)
         t = rng.randint(1, nvalid)
@@ -152,6 +170,13 @@ def gen_case(rng, gpg=None, stratum=None):
                 st_names.append("copy_under_respelling")
             else:
                 stratum = "sole:threshold"
+        elif filt == "far_threshold":
+            # several good signers, a (positive integer) threshold far above them
+            for k in rest:
+                add(k.hex, rng.choice(vs), k)
+            for k in outsiders[:2]:
+                add(k.hex, rng.choice(vs), k)
+            t = rng.choice([x for x in FAR_THRESHOLDS if x > len(auth)])
         elif filt == "threshold":
             if rng.random() < 0.4:
                 # every authorized key has a valid entry, the threshold is still one higher (legal "draft" shape),
